@@ -24,7 +24,7 @@ def expected(kind, key, args):
         return ("exc", "KeyboardInterrupt", (key,), "_RemoteTraceback")
     if kind == "unpicklable_result":
         return ("exc", "ValueError", ("result cannot be pickled",), "_RemoteTraceback")
-    if kind in ("bad_arg", "exit_arg", "slow_bad_arg"):
+    if kind in ("bad_arg", "exit_arg", "slow_bad_arg", "index_arg", "key_arg"):
         return ("exc", "PicklingError", None, "_RemoteTraceback")
     if kind == "huge_arg":
         return ("exc", "RuntimeError", None, "_RemoteTraceback")
